@@ -22,7 +22,8 @@ RULE = ("Hypothesis-generated programs: one root object of each of the 18 classe
         "distinct = distinct (class, initial document, step list). Second part (complete product): "
         "every mutator at root/nested targets with the k-th file-system call of its save failing "
         "with OSError, for every k (JSON classes), or the store's write call failing (fakes): a call "
-        "that RETURNS normally must still have put the new content into the resource. One step in "
+        "that RETURNS normally must still have put the new content into the resource, and after a "
+        "call that RAISED the next read equals the backend and the next mutation is written through. One step in "
         "twenty of the first part starts a script: a mutation, an outside writer's rewrite of the "
         "resource, the same mutation again. Third part (buffered classes): unbuffered mutations "
         "between buffered sessions (per-object / backend-wide contexts, capacities), a fifth of whose "
@@ -113,6 +114,38 @@ def run_faults(ci, acc):
                                     "call": calls[k - 1] if ci.backend == "json" and k <= len(calls) else "store write",
                                     "got": got, "expected": model}
                             if len(acc.failures) < 2:
+                                acc.failures.append({"case": {"property": ID, "engine": "c01faults",
+                                                              "class": ci.name, "op": m, "a": a,
+                                                              "path": list(path), "k": k}, "desc": desc})
+                    if fired and not real.ok:
+                        # the failure was reported; it must not linger: the next read reflects the
+                        # backend and the next mutation is written through
+                        try:
+                            F = res.read()
+                        except ValueError:
+                            F = None
+                        if F is not None and F is not ABSENT and isinstance(F, type(doc)):
+                            from ..plain import plain
+                            desc = None
+                            try:
+                                v = plain(root())
+                                if v != F:
+                                    desc = {"what": "read_after_failed_call_differs_from_backend", "got": v, "expected": F}
+                                exp = copy.deepcopy(F)
+                                if kind == "dict":
+                                    root["zz_probe"] = 1
+                                    exp["zz_probe"] = 1
+                                else:
+                                    root.append("zz_probe")
+                                    exp.append("zz_probe")
+                                got = res.read()
+                                if desc is None and got != exp:
+                                    desc = {"what": "write_after_failed_call_not_in_backend", "got": got, "expected": exp}
+                            except Exception as e:  # noqa: BLE001
+                                desc = {"what": "call_after_failed_call_raised", "error": f"{type(e).__name__}: {str(e)[:160]}"}
+                            acc.counters["fault.followed_by_read_and_write_probe"] += 1
+                            if desc is not None and len(acc.failures) < 2:
+                                desc.update({"op": m, "target": list(path), "failing_call": k})
                                 acc.failures.append({"case": {"property": ID, "engine": "c01faults",
                                                               "class": ci.name, "op": m, "a": a,
                                                               "path": list(path), "k": k}, "desc": desc})
